@@ -211,6 +211,7 @@ class Sample:
                     self.reads.append((read.query_sequence, read.query_name, r))
                 if r and debug:
                     self._dump_reads.append(r)
+        self._finish_indel_counts()
         return norm, muts
 
     def _load_vcf(self, vcf_path: str, sample_idx: int = 0):
@@ -804,8 +805,6 @@ class Sample:
 
             with tempfile.TemporaryDirectory() as tmp:
                 self._realign_indels(tmp, sam, reference, True)
-                for po, (off, on) in self._indel_sites.items():
-                    self._indel_sites[po] = [off - on, on]
 
             wide = self.gene.get_wide_region()
             end = wide.end
@@ -885,7 +884,15 @@ class Sample:
                     counter += 1
                     if r and debug:
                         self._dump_reads.append(r)
+        self._finish_indel_counts()
         return norm, muts
+
+    def _finish_indel_counts(self):
+        """Without realignment every read spanning an indel site was counted:
+        turn (spanning, supporting) into (non-supporting, supporting)."""
+        if self._indel_sites_eqs:
+            for po, (off, on) in self._indel_sites.items():
+                self._indel_sites[po] = [off - on, on]
 
     def _map(self, idx, seq):
         """
